@@ -21,6 +21,17 @@ RoundUpRel(x, d, r) == /\ IsMultiple(r, Unit(d)) /\ SameSignOrZero(r, x)
 RoundDownRel(x, d, r) == /\ IsMultiple(r, Unit(d)) /\ SameSignOrZero(r, x)
                          /\ QLe(QAbs(r), QAbs(x)) /\ QLt(QSub(QAbs(x), QAbs(r)), Unit(d))
 
+(* Unit-scale rounding of numbers up to 2*10^9 with at most three decimals  *)
+(* (1234567.001): the result is a whole number r; written with integer     *)
+(* products that stay below 2^31.                                          *)
+BigUnitSafe(x) == x.d >= 1 /\ x.d <= 1000 /\ AbsI(x.n) <= 2000000000
+WholeNear(x, r) == r.d = 1 /\ AbsI(r.n) <= (AbsI(x.n) \div x.d) + 1
+UpAbs0(x, r) == AbsI(r.n) * x.d >= AbsI(x.n) /\ (AbsI(r.n) - 1) * x.d < AbsI(x.n)         \* |r| = ceiling of |x|
+DownAbs0(x, r) == AbsI(r.n) * x.d <= AbsI(x.n) /\ (AbsI(r.n) + 1) * x.d > AbsI(x.n)       \* |r| = floor of |x|
+Near0(x, r) == LET diff == AbsI(AbsI(r.n) * x.d - AbsI(x.n)) IN diff <= x.d \div 2 \/ (x.d % 2 = 0 /\ diff = x.d \div 2)
+Ceil0(x, r) == r.n * x.d >= x.n /\ (r.n - 1) * x.d < x.n
+Floor0(x, r) == r.n * x.d <= x.n /\ (r.n + 1) * x.d > x.n
+
 (* CEILING / FLOOR: adjacent multiple of |sig| on the documented side.     *)
 (* side = "up" means r >= x, "down" means r <= x                           *)
 AdjacentRel(x, s, r, side) ==
